@@ -4,6 +4,7 @@ import (
 	"bufio"
 	"encoding/json"
 	"fmt"
+	"github.com/mit-pdos/go-nfsd/util/timed_disk"
 	"io"
 	"os"
 	"sort"
@@ -30,13 +31,22 @@ type Srv struct {
 }
 
 // Start runs MakeNfs on d (formats an empty disk, recovers otherwise).
+// UseTimedDisk puts util/timed_disk between every server instance and its disk.
+var UseTimedDisk bool
+
 func Start(d *vdisk.Disk, unstable bool) (s *Srv, err error) {
 	defer func() {
 		if r := recover(); r != nil {
 			err = fmt.Errorf("MakeNfs panic: %v", r)
 		}
 	}()
-	n := nfs.MakeNfs(d)
+	var n *nfs.Nfs
+	if UseTimedDisk { // the wrapper `go-nfsd -stats` runs on, over a disk whose barriers take a while
+		d.SlowBarrier = 150 * time.Microsecond
+		n = nfs.MakeNfs(timed_disk.New(d))
+	} else {
+		n = nfs.MakeNfs(d)
+	}
 	n.Unstable = unstable
 	if UseTransport {
 		return &Srv{D: d, N: n, API: NewRpcAPI(n)}, nil
